@@ -1261,6 +1261,12 @@ def gen_kinds(tier, rng):
         emit("case.dc", arr, fb, tb, [["comb", 0, tb, tb + 1, src, ["case", X, "-1--" if fb == 2 else "1---"]]])
         emit("assign.partial", arr, fb, tb, [["comb", 0, 0, 4, ["sl", 3, 0, 4], ["b", 2, 0]],
                                              ["comb", 0, tb, tb + 1, Xb, ["b", 2, 1]]])
+        # the ring passes through the DEFAULT input of an AssignmentList: the first assignment of signal 4 is
+        # unconditional, covers the whole signal and has a signal-only right-hand side (emit_value folds it into the
+        # cell's default), a conditional override follows, and the loop closes only through that first assignment
+        emit("assign.default", arr, fb, tb, [["comb", 4, 0, 1, Xb, None],
+                                             ["comb", 4, 0, 1, ["c", 0, 1], ["b", 2, 1]],
+                                             ["comb", 0, tb, tb + 1, ["b", 4, 0], None]])
         emit("flipflop", arr, fb, tb, [["a", 0, tb, tb + 1, Xb, None]])
         # dependencies through the assignment TARGET: part-select offset / array index reading the ring
         emit("lsel.part", arr, fb, tb, [{"asg": "comb", "tgt": ["part", 0, tb, tb + 1, Xb, 1, 1], "e": src, "cond": None}])
